@@ -126,7 +126,26 @@ func (g *sgen) seq(loops []loopInfo) (*E, string) {
 			return Var(l.val), "int"
 		}
 	}
-	switch g.pick(19, "seq") {
+	switch g.pick(22, "seq") {
+	case 19:
+		// chains of filters in which each one matters
+		base := rapid.SampledFrom([]string{"xs", "long", "txs", "es"}).Draw(g.t, "chainbase")
+		switch g.pick(5, "chain") {
+		case 0:
+			return Filt(Filt(Var(base), "reverse"), "reverse"), "int"
+		case 1:
+			return Filt(Filt(Var(base), "sort"), "reverse"), "int"
+		case 2:
+			return Filt(Filt(Var(base), "slice", Int(0), Int(0)), "reverse"), "int"
+		case 3:
+			return Filt(Filt(Var(base), "reverse"), "slice", Int(int64(g.pick(3, "from"))), Int(int64(g.pick(4, "n")))), "int"
+		default:
+			return Filt(Filt(Filt(Var(base), "slice", Int(1), Int(3)), "sort"), "reverse"), "int"
+		}
+	case 20:
+		return Filt(Filt(Var("nul"), "default", Var("xs")), "reverse"), "int"
+	case 21:
+		return Filt(Filt(Var("m1"), "keys"), "reverse"), "str"
 	case 16:
 		return Var("txs"), "int"
 	case 17:
